@@ -9,6 +9,10 @@ import (
 type EncOpts struct {
 	// NoGlobalSpec: never use Global_tables_spec (spec: the flag merely says how table names are laid out).
 	NoGlobalSpec bool
+	// GlobalWithNoMetadata: set the Global_tables_spec bit together with No_metadata. §4.2.5.2: with No_metadata
+	// "the <metadata> is only composed of these <flags>, the <column_count> and optionally the <paging_state>
+	// ... (so no <global_table_spec> nor <col_spec_i>)" - whatever the other bits say, nothing follows.
+	GlobalWithNoMetadata bool
 }
 
 type w struct{ b []byte }
@@ -425,6 +429,9 @@ func encodeRowsMetadata(x *w, v Version, m *RowsMetadata, o EncOpts) error {
 	}
 	if noMeta {
 		fl |= 0x0004
+		if o.GlobalWithNoMetadata {
+			fl |= 0x0001
+		}
 	}
 	if m.NewMetadataID != nil {
 		if !v.HasResultMetadataID() {
